@@ -6,7 +6,7 @@ From PegV Require Import Base.Tac Spec.Syntax Spec.Peg Model.Machine Model.Gen P
     token buffer beyond its length - the final position is within the input, and every recorded
     token (or the error token) satisfies begin <= end <= number of runes. *)
 Theorem C13_no_crash :
-  forall g ptx buf penv, good_grammar g -> good_buf buf ->
+  forall g ptx buf penv, good_grammar g -> good_buf buf -> good_switches g ->
   forall memo inline n r st0 rr,
     slot_ok g inline r -> peg_parse g ptx buf penv n r = Some rr ->
     exists b st', machine g ptx buf penv memo inline n r st0 = Some (Ret b st') /\
